@@ -89,8 +89,7 @@ func normSig(sig string, imports map[string]string) string {
 	return strings.ReplaceAll(s, " ", "")
 }
 
-var sharedTypes = []string{"attrReadConversionFailureDiag", "attrReadMissingDiag", "attrWriteConversionFailureDiag", "attrWriteGeneralError", "attrWriteMissingDiag"}
-var sharedMethods = []string{"Detail", "Equal", "Severity", "Summary"}
+var converterNameRe = regexp.MustCompile(`^(GenSchema.+|Copy.+(From|To)Terraform)$`)
 
 func (e *evalCtx) expectedRoots(p *spec.Program) []string {
 	bad := map[string]bool{}
@@ -147,11 +146,6 @@ func (e *evalCtx) c01(p *spec.Program, s *ProgSummary) {
 			want["Copy"+r+"FromTerraform"] = "func(context.Context," + pTypes + ".Object,*" + structPkg + r + ")" + pDiag + ".Diagnostics"
 			want["Copy"+r+"ToTerraform"] = "func(context.Context,*" + structPkg + r + ",*" + pTypes + ".Object)" + pDiag + ".Diagnostics"
 		}
-		for _, t := range sharedTypes {
-			for _, m := range sharedMethods {
-				want[t+"."+m] = ""
-			}
-		}
 		for name, sg := range want {
 			got, ok := s.Funcs[name]
 			if !ok {
@@ -162,13 +156,12 @@ func (e *evalCtx) c01(p *spec.Program, s *ProgSummary) {
 				bad = append(bad, fmt.Sprintf("%s has signature %s, expected %s", name, normSig(got, s.Imports), sg))
 			}
 		}
+		// the property fixes the converter functions only: helper declarations (the shared diagnostic
+		// types and whatever a refactoring adds next to them) are not its business
 		for name := range s.Funcs {
-			if _, ok := want[name]; !ok {
+			if _, ok := want[name]; !ok && converterNameRe.MatchString(name) {
 				bad = append(bad, "unexpected function "+name)
 			}
-		}
-		if strings.Join(s.Types, ",") != strings.Join(sharedTypes, ",") {
-			bad = append(bad, fmt.Sprintf("top-level types %v", s.Types))
 		}
 	}
 	if len(bad) == 0 {
